@@ -272,7 +272,7 @@ def finish(ctx: Ctx, extra_cov=None):
         "exhaustive": exhaustive,
         "levels": ctx.levels,
         "distinct_outcomes": len(acc.outcomes),
-        "outcome_histogram": dict(acc.outcomes.most_common(12)),
+        "outcome_histogram": {str(k): v for k, v in acc.outcomes.most_common(12)},
         "counters": dict(acc.counters),
         "maxima": acc.maxima,
         "alphabet": ctx.alphabet,
